@@ -383,6 +383,14 @@ func (s *VerifSched) StatementBegin(kind string) {
 	s.heldBack = nil
 }
 
+// StatementReturned is called right after a statement has returned without an error: if it changed shared
+// state and logs its changes (INSERT, UPDATE, DELETE), its log append must be complete by now.
+func (s *VerifSched) StatementReturned() {
+	if s.stmtOpen && s.changed && !s.logged && (s.stmtKind == "insert" || s.stmtKind == "update" || s.stmtKind == "delete") {
+		s.problem("returned-before-logged", "the statement (%s) returned while its log append had not completed: its changes can reach the data file, and be lost from it, ahead of their log records", s.stmtKind)
+	}
+}
+
 func (s *VerifSched) StatementEnd() {
 	t := s.lookup()
 	if t == nil {
